@@ -703,7 +703,7 @@ C03_KINDS = {
     "var-type":       (None, ['zz9: int = "a"']),
     "var-type-const": (None, ['zz9: str : 1']),
     "assign-type":    (None, ['zz8 := 1', 'zz8 = "a"']),
-    "field-type":     ('Zb { a: "s", b: "x" }', None),
+    "field-type":     ('(Zb { a: "s", b: "x" })', None),
     "param-type":     (None, ['zz7 :: fn q: int do', 'end', 'zz7(true)']),
     "void-store":     (None, ['zz6 := zvoid()']),
     "ret-type":       (None, None),      # needs the slot's return type: see c03_plants
@@ -847,8 +847,8 @@ def c05_plants(tmpl, g, r, kinds=None):
         fs = blobs[bn]
         inits = ["%s: %s" % (f, closed_expr(ft, g, r)) for f, ft in fs]
         drop = r.randrange(len(fs))
-        ex.setdefault("blob-missing-field", []).append("%s { %s }" % (bn, ", ".join(x for j, x in enumerate(inits) if j != drop)))
-        ex.setdefault("blob-unknown-field", []).append("%s { %s }" % (bn, ", ".join(inits + ["nope_field: 1"])))
+        ex.setdefault("blob-missing-field", []).append("(%s { %s })" % (bn, ", ".join(x for j, x in enumerate(inits) if j != drop)))
+        ex.setdefault("blob-unknown-field", []).append("(%s { %s })" % (bn, ", ".join(inits + ["nope_field: 1"])))
         ex.setdefault("blob-absent-access", []).append("(%s { %s }).nope_field" % (bn, ", ".join(inits)))
         st.setdefault("blob-absent-access", []).append(["zs1 :: %s { %s }" % (bn, ", ".join(inits)), "zs1.nope_field"])
     for en in sorted(enums):
@@ -865,7 +865,7 @@ def c05_plants(tmpl, g, r, kinds=None):
     ex["tuple-index-range"] = ["ZT[2]", "(1, 2, 3)[7]"]
     st["tuple-length"] = [["zs2: (int, int) = (1, 2, 3)"], ["zs3 := (1, 2)", "zs3 = (1, 2, 3)"]]
     ex["tuple-length"] = ["((1, 2) == (1, 2, 3))"]
-    ex["externblob-inst"] = ["Zx { a: 1 }"]
+    ex["externblob-inst"] = ["(Zx { a: 1 })"]
     out = []
     ss = slots(tmpl, "S")
     es = slots(tmpl, "E")
